@@ -389,8 +389,12 @@ def spec_local_class(I):
         self.attrs["_g_evals"] = self.attrs["_g_evals"] + 1
         f, _ = base.lookup("evaluate")
         I_.call(f, [self], {})
-        if I_.ctx.choose(2) == 1:
+        k = I_.ctx.choose(3)
+        if k == 1:
             raise Raised(Obj(exc_class(I_, "EvalError"), {"args": ()}))
+        if k == 2:
+            # an evaluate() that calls a state-guarded method of its own too early
+            raise Raised(Obj(AppStateError, {"args": ()}))
 
     def clean_up(I_, self):
         self.attrs["_g_cleanups"] = self.attrs["_g_cleanups"] + 1
